@@ -56,3 +56,71 @@ fn c12_history_public_api() {
     kani::cover!(a != b && y > 0 && z > 0 && e == l1, "VERIF:reach:full history on the expiration ledger");
     kani::cover!(a == b && y > 0, "VERIF:reach:history with a self transfer");
 }
+
+// HARNESS props=C12,C07 tier=quick profile=tok_hist shape="short history: construct; owner mints x to A; A moves y to B; B burns z — amounts full i128, A,B among 3 principals (aliasing allowed); public entry points only"
+#[kani::proof]
+fn c12_history_short() {
+    let env = Env::default();
+    let owner = Address(4);
+    let md = TokenMetadata { decimal: 7, name: any::string_exact(1), symbol: any::string_exact(1) };
+    model::with_contract(&tok(), || InterchainToken::__constructor(env.clone(), owner.clone(), None, any::b32(1), md.clone()));
+    let (a, b) = (any::address(3), any::address(3));
+    let (x, y, z): (i128, i128, i128) = (kani::any(), kani::any(), kani::any());
+    any::auths();
+    let r = model::with_contract(&tok(), || InterchainToken::mint_from(&env, owner.clone(), a.clone(), x));
+    kani::assume(r.is_ok());
+    kani::assert(x >= 0 && model::auth_of(&owner), "VERIF:C12:minting needs a current minter's authorisation and a non-negative amount");
+    any::auths();
+    model::with_contract(&tok(), || InterchainToken::transfer(env.clone(), a.clone(), b.clone(), y));
+    kani::assert(model::auth_of(&a), "VERIF:C07,C12:a transfer needs the sender's authorisation");
+    kani::assert(y >= 0 && y <= x, "VERIF:C12:a transfer stays within the sender's balance");
+    any::auths();
+    model::with_contract(&tok(), || InterchainToken::burn(env.clone(), b.clone(), z));
+    let b_before = if a == b { x } else { y };
+    kani::assert(model::auth_of(&b), "VERIF:C07,C12:burning needs the holder's authorisation");
+    kani::assert(z >= 0 && z <= b_before, "VERIF:C12:burning stays within the balance");
+    let (ba, bb) = model::with_contract(&tok(), || (InterchainToken::balance(env.clone(), a.clone()), InterchainToken::balance(env.clone(), b.clone())));
+    if a == b {
+        kani::assert(ba == x - z, "VERIF:C12:balances follow the history exactly (self-transfer moves nothing)");
+    } else {
+        kani::assert(ba == x - y && bb == y - z, "VERIF:C12:balances follow the history exactly");
+    }
+    kani::cover!(a != b && y > 0 && z > 0, "VERIF:reach:mint, transfer, burn");
+    kani::cover!(a == b && y > 0, "VERIF:reach:short history with a self transfer");
+}
+// HARNESS props=C12,C07 tier=quick profile=tok_hist shape="short delegated history: construct; owner mints x to A; A approves S for p until ledger e; S moves y from A to B at ledger l >= the approval's ledger — full i128/u32; public entry points only"
+#[kani::proof]
+fn c12_history_delegated_short() {
+    let env = Env::default();
+    let owner = Address(4);
+    let md = TokenMetadata { decimal: 7, name: any::string_exact(1), symbol: any::string_exact(1) };
+    model::with_contract(&tok(), || InterchainToken::__constructor(env.clone(), owner.clone(), None, any::b32(1), md.clone()));
+    let (a, b, s) = (any::address(3), any::address(3), any::address(3));
+    let (x, p, y): (i128, i128, i128) = (kani::any(), kani::any(), kani::any());
+    let (e, l0, l1): (u32, u32, u32) = (kani::any(), kani::any(), kani::any());
+    kani::assume(l0 <= l1);
+    model::set_auth(&owner, true);
+    let r = model::with_contract(&tok(), || InterchainToken::mint_from(&env, owner.clone(), a.clone(), x));
+    kani::assume(r.is_ok());
+    any::auths();
+    model::set_ledger(0, l0);
+    model::with_contract(&tok(), || InterchainToken::approve(env.clone(), a.clone(), s.clone(), p, e));
+    kani::assert(model::auth_of(&a), "VERIF:C07,C12:an allowance is granted only by the owner of the funds");
+    kani::assert(p >= 0 && !(p > 0 && e < l0), "VERIF:C12:an allowance is non-negative and not already expired");
+    any::auths();
+    model::set_ledger(0, l1);
+    model::with_contract(&tok(), || InterchainToken::transfer_from(env.clone(), s.clone(), a.clone(), b.clone(), y));
+    kani::assert(model::auth_of(&s), "VERIF:C07,C12:a delegated transfer needs the spender's authorisation");
+    kani::assert(y >= 0 && y <= x && (y == 0 || (y <= p && e >= l1)), "VERIF:C12:a delegated transfer stays within the balance and the live allowance (usable up to and including its expiration ledger)");
+    let (ba, bb, al) = model::with_contract(&tok(), || {
+        (InterchainToken::balance(env.clone(), a.clone()), InterchainToken::balance(env.clone(), b.clone()), InterchainToken::allowance(env.clone(), a.clone(), s.clone()))
+    });
+    if a == b {
+        kani::assert(ba == x, "VERIF:C12:balances follow the history exactly (self-transfer moves nothing)");
+    } else {
+        kani::assert(ba == x - y && bb == y, "VERIF:C12:balances follow the history exactly");
+    }
+    let want_al = if e >= l1 { if y > 0 { p - y } else { p } } else { 0 };
+    kani::assert(al == want_al, "VERIF:C12:the allowance left is the grant minus what was spent, and nothing after its expiration");
+    kani::cover!(a != b && y > 0 && e == l1, "VERIF:reach:delegated transfer on the expiration ledger");
+}
